@@ -15,6 +15,8 @@ from __future__ import annotations
 
 import io
 import itertools
+import resource
+import signal
 import struct
 from uuid import UUID
 
@@ -706,6 +708,38 @@ def reductions(feats):
 # ---------------------------------------------------------------------------------------------
 # one document under one configuration
 
+class RunawayCode(Exception):
+    """The code under check used more than CPU_CAP seconds of CPU for one tiny document."""
+
+
+CPU_CAP = 10.0           # seconds of *CPU* time (ITIMER_VIRTUAL): insensitive to machine load
+MEM_CAP = 3 << 30        # address-space cap while srctools code runs: a misread length must raise, not eat the host
+
+
+def _on_vtalrm(signum, frame):
+    raise RunawayCode(f'more than {CPU_CAP:.0f} s of CPU time')
+
+
+class guard:
+    """Bounds CPU time and memory of one call into srctools (a mis-decoded array length otherwise allocates
+    gigabytes or loops for minutes, and an OOM-killed pool worker would hang the run)."""
+
+    def __enter__(self):
+        self.old_handler = signal.signal(signal.SIGVTALRM, _on_vtalrm)
+        self.old_limit = resource.getrlimit(resource.RLIMIT_AS)
+        hard = self.old_limit[1]
+        cap = MEM_CAP if hard == resource.RLIM_INFINITY else min(MEM_CAP, hard)
+        resource.setrlimit(resource.RLIMIT_AS, (cap, hard))
+        signal.setitimer(signal.ITIMER_VIRTUAL, CPU_CAP)
+        return self
+
+    def __exit__(self, *exc):
+        signal.setitimer(signal.ITIMER_VIRTUAL, 0)
+        resource.setrlimit(resource.RLIMIT_AS, self.old_limit)
+        signal.signal(signal.SIGVTALRM, self.old_handler)
+        return False
+
+
 def cfg_key(cfg: dict) -> str:
     if cfg['enc'] == 'bin':
         return f"bin{cfg['ver']}/{cfg['uni']}"
@@ -718,12 +752,13 @@ def run_doc(doc: dict, cfg: dict):
     why_not = inexpressible(doc, cfg)
     buf = io.BytesIO()
     try:
-        if cfg['enc'] == 'bin':
-            root.export_binary(buf, version=cfg['ver'], unicode=cfg['uni'])
-        else:
-            root.export_kv2(buf, flat=cfg['flat'], cull_uuid=cfg['cull'], unicode=cfg['uni'])
+        with guard():
+            if cfg['enc'] == 'bin':
+                root.export_binary(buf, version=cfg['ver'], unicode=cfg['uni'])
+            else:
+                root.export_kv2(buf, flat=cfg['flat'], cull_uuid=cfg['cull'], unicode=cfg['uni'])
     except Exception as exc:  # noqa: BLE001
-        if why_not:
+        if why_not and not isinstance(exc, (RunawayCode, MemoryError)):
             return 'rejected', []
         return 'export_raised', [('export_raised', type(exc).__name__,
                                   f'export raised {type(exc).__name__}: {exc} although {cfg_key(cfg)} can express the document')]
@@ -746,7 +781,8 @@ def run_doc(doc: dict, cfg: dict):
             except WireError as exc:
                 fails.append(('wire_mismatch', exc.what, f'independently decoded stream differs from the source: {exc.detail}'))
     try:
-        parsed, fmt_name, fmt_ver = Element.parse(io.BytesIO(data), unicode=cfg['uni'] == 'silent')
+        with guard():
+            parsed, fmt_name, fmt_ver = Element.parse(io.BytesIO(data), unicode=cfg['uni'] == 'silent')
     except Exception as exc:  # noqa: BLE001
         tail = data[-160:] if cfg['enc'] == 'bin' else data[-400:]
         # the exception type depends on where a misaligned read happens to stop: one coarse class
@@ -991,6 +1027,29 @@ def run_kv(tree, route: str):
     stage = 'from_kv1'
     tail = b''
     try:
+        with guard():
+            back, tail, stage = _kv_route(tree, cfg)
+    except _Staged as wrapped:
+        exc, stage, tail = wrapped.exc, wrapped.stage, wrapped.tail
+        return 'raised', [('kv1_raised', stage, f'{stage} raised {type(exc).__name__}: {str(exc)[:300]}'
+                                                + (f'\n exported tail: {tail!r}' if tail else ''))]
+    d = diff_kv(tree, back)
+    if d:
+        return 'mismatch', [('kv1_mismatch', d[0], f'{d[1]}\n returned tree: {core.jdump(back)[:500]}'
+                                                   + (f'\n exported tail: {tail!r}' if tail else ''))]
+    return 'ok', []
+
+
+class _Staged(Exception):
+    def __init__(self, exc, stage, tail):
+        super().__init__(str(exc))
+        self.exc, self.stage, self.tail = exc, stage, tail
+
+
+def _kv_route(tree, cfg):
+    stage = 'from_kv1'
+    tail = b''
+    try:
         elem = Element.from_kv1(build_kv(tree))
         if cfg is not None:
             _renumber(elem)
@@ -1006,13 +1065,8 @@ def run_kv(tree, route: str):
         stage = 'to_kv1'
         back = dump_kv(elem.to_kv1())
     except Exception as exc:  # noqa: BLE001
-        return 'raised', [('kv1_raised', stage, f'{stage} raised {type(exc).__name__}: {str(exc)[:300]}'
-                                                + (f'\n exported tail: {tail!r}' if tail else ''))]
-    d = diff_kv(tree, back)
-    if d:
-        return 'mismatch', [('kv1_mismatch', d[0], f'{d[1]}\n returned tree: {core.jdump(back)[:500]}'
-                                                   + (f'\n exported tail: {tail!r}' if tail else ''))]
-    return 'ok', []
+        raise _Staged(exc, stage, tail) from None
+    return back, tail, stage
 
 
 _KVCACHE: dict[str, tuple] = {}
